@@ -59,7 +59,7 @@ var LocalStackPool = []string{
 }
 
 var CfgCounterPool = []string{"editor:{vscode,vim}", "plain", "go/invocations", "flag:{-json,-v}", "editor:{emacs}", "signal:{os:kill,os:term,none}"}
-var CfgStackPool = []string{"crash/crash", "crash/other"}
+var CfgStackPool = []string{"crash/crash", "crash/other", "plain"} // "plain" may be listed as a counter too, with another rate
 
 // dyadic rationals k/2^20: exactly representable on both sides of X <= Rate.
 func Dyadic(k int) float64 { return float64(k) / float64(1<<20) }
